@@ -1058,7 +1058,52 @@ def run(ctx):
               'the attribute policy is not rebuilt from the accepted request version' + (': %s' % folded_pol[1] if folded_pol else ''))
     # is_attribute_supported / deprecated bodies
     pcl = pol.cls
+    def fold_version_query(meth, fld, none_ok):
+        """the query method folded for every (request version, rule version) pair over a one-entry rule table: True exactly when the
+        request version is >= the rule's version (and the rule has one) - whatever helper or rule-set method computes it.  None = not foldable"""
+        from ..fold import Folder, Version, Unfoldable, Raised
+        ptree = src.tree('kmip/services/server/policy.py')
+        rcls = [c for c in ptree.body if isinstance(c, ast.ClassDef) and c.name == 'AttributeRuleSet']
+        if len(rcls) != 1:
+            return None
+        fn_ = get_method(pcl, meth)
+        allv = [(1, 0), (1, 1), (1, 2), (1, 3), (1, 4), (2, 0)]
+        bad, n_ = [], 0
+        for v in allv:
+            for rv in allv + ([None] if none_ok else []):
+                fo = Folder(models={'ProtocolVersion': Version, 'contents.ProtocolVersion': Version}, steps=20000,
+                            methods={x.name: x for x in pcl.body if isinstance(x, ast.FunctionDef)})
+                fo.module = ptree
+                rule = Folder.new_object(rcls[0])
+                vals = {'version_added': Version(1, 0), 'version_deprecated': None, 'applies_to_object_types': [], 'always_has_value': False,
+                        'initially_set_by': (), 'modifiable_by_server': False, 'modifiable_by_client': False, 'deletable_by_client': False,
+                        'multiple_instances_permitted': False, 'implicitly_set_by': ()}
+                vals[fld] = Version(*rv) if rv is not None else None
+                rule.update(vals)
+                rule['__attrs__'] = tuple(vals)
+                selfv = {'__attrs__': ('_version', '_attribute_rule_sets'), '_version': Version(*v), '_attribute_rule_sets': {'X': rule},
+                         '__props__': {}, '__methods__': {x.name: x for x in pcl.body if isinstance(x, ast.FunctionDef)}, '__class__': 'AttributePolicy'}
+                try:
+                    got = fo.call_method(fn_, selfv, ['X'], {})
+                except (Unfoldable, Raised, RecursionError, KeyError, TypeError, AttributeError):
+                    return None
+                if got is not True and got is not False:
+                    return None
+                n_ += 1
+                want = rv is not None and v >= rv
+                if got != want:
+                    bad.append('version %d.%d, rule %s %s -> %s' % (v[0], v[1], fld, ('%d.%d' % rv) if rv else None, got))
+        return bad, n_
+
     for meth, fld, none_ok in (('is_attribute_supported', 'version_added', False), ('is_attribute_deprecated', 'version_deprecated', True)):
+        folded = fold_version_query(meth, fld, none_ok)
+        if folded is not None:
+            fq = get_method(pcl, meth)
+            ctx.check(not folded[0], 'C16.R8', 'AttributePolicy.%s|compare' % meth, 'kmip/services/server/policy.py:%s AttributePolicy.%s' % (fq.lineno, meth),
+                      'True exactly under self._version >= rule.%s (folded over %d version pairs)' % (fld, folded[1]),
+                      '%s does not return True exactly when the version is >= rule.%s: %s' % (meth, fld, folded[0][:4]))
+            ctx.analysed['policy_version_query_pairs_folded'] = ctx.analysed.get('policy_version_query_pairs_folded', 0) + folded[1]
+            continue
         f = get_method(pcl, meth)
         fg = CFG(f)
         frd = ReachingDefs(fg)
